@@ -182,7 +182,7 @@ func genCase(t *rapid.T) tcase {
 			honest:   rapid.Bool().Draw(t, "honest"),
 			tee:      rapid.Bool().Draw(t, "tee"),
 			extraDbl: rapid.IntRange(0, 3).Draw(t, "extra") == 0,
-			hdrTo:    rapid.SampledFrom([]string{"", "", "own", "own", "foreign"}).Draw(t, "hdrTo"),
+			hdrTo:    rapid.SampledFrom([]string{"", "", "own", "own", "foreign", "foreign-samelen"}).Draw(t, "hdrTo"),
 			location: rapid.SampledFrom([]string{"", "", "xmpp.hosting.example.org"}).Draw(t, "location"),
 			protHdr:  rapid.SampledFrom([]string{"", "", "", "noid", "noversion"}).Draw(t, "protHdr"),
 			wrapped:  rapid.IntRange(0, 3).Draw(t, "wrapped") == 0,
@@ -360,6 +360,11 @@ func runSessionNeg(sc sessionCase, feature xmpp.StreamFeature, forceTee *bool, s
 			hdr1 = headerTo(peerFrom, local.String())
 		case "foreign":
 			hdr1 = headerTo(peerFrom, "alice@evil.example")
+		case "foreign-samelen":
+			// somebody else's address, in another domain, whose parts are as long
+			// as the parts of the client's own address
+			other := map[string]string{"example.net": "example.org", "example.org": "example.net", "im.example.com": "im.example.net"}[sc.domain]
+			hdr1 = headerTo(peerFrom, "romeo1@"+other+"/balcony")
 		}
 		starttls := `<starttls xmlns="` + tlsNS + `"/>`
 		mechs := `<mechanisms xmlns="` + saslNS + `"><mechanism>PLAIN</mechanism><mechanism>SCRAM-SHA-1</mechanism><mechanism>SCRAM-SHA-256</mechanism></mechanisms>`
